@@ -21,6 +21,7 @@ EXPLANATION = (
     'Path-sensitive typestate over all CFG paths of the snapshot downloader (source: cache read or backend download; sanitizer: failing edge of the digest '
     'comparison; sinks: the decoder and the cache store), provenance of the cache key (only backend-listed, tag-checked snapshot paths), guard dominance of '
     '"cache directory is not None" over every cache helper call, and the overwrite/idempotence constants of the three cache helpers. Rules C18.R1-R5.'
+    ' Added with the seeded-defect rounds: the cache holds content-addressed snapshot objects only, reading commands cannot reach backend.delete.'
 )
 NOT_DECIDED = 'equality of command results over histories of several clients sharing or not sharing a cache (needs execution)'
 TRUSTED = ['hash collision resistance', 'CPython ast']
